@@ -275,8 +275,10 @@ CLAIMED = {
                 'radii (exact vis-viva of the pre-correction state + a perturbation budget for the three corrections, its numeric core closed by interval arithmetic; '
                 'mu = ke^2 XKMPER^3/3600 = 398600.8). In the drag-free case (at epoch, or B* = 0 at any time; accepted set with e0 <= 0.39) both clauses are proved in '
                 "the property's own terms: the returned distance lies between the model's perigee and apogee radii a0''(1 -+ e0) XKMPER widened by 40 km, and the "
-                "energy is within 1 % of -mu/(2 a0'' XKMPER). The other clauses (velocity = d position/dt within 0.15 %, both clauses with drag away from epoch, orbit "
-                'summary) are facts about the SGP4 theory and are checked by sampling',
+                "energy is within 1 % of -mu/(2 a0'' XKMPER). The exposed summary (OrbitElements.semi_major_axis, .perigee) is proved to lie within 1.3 km of the "
+                "propagator's own a0'' / perigee height for every e0 <= 0.4 and 6.4 <= n <= 17 rev/day (mean-value theorem on the shared function of the oblateness "
+                'term, derivative bounded by interval arithmetic). The other clauses (velocity = d position/dt within 0.15 %, both clauses with drag away from epoch, '
+                'the summary against the trajectory, period) are facts about the SGP4 theory and are checked by sampling',
         "design_ref": 'DESIGN.md 5/C20',
         "note": 'trusted: Coq kernel, stdlib real axioms, translator (self-checked each run). Sampled clauses are not proved; say so in evidence.assumptions',
         "technique": 'Coq proof (ring with trigonometric identities) over source-regenerated model; finite-difference and node-scan oracle on the implementation',
